@@ -169,8 +169,12 @@ pub fn run_case(c: &C06Case, n: u64) -> Verdict {
     let canonical: Vec<OsString> = root_paths.iter().map(|p| canon(p).into_os_string()).collect();
     let alt: Vec<OsString> =
         roots.iter().enumerate().map(|(i, r)| spell(&r.base, c.alt_spell[i % c.alt_spell.len()], &tree)).collect();
-    for (name, a) in [("canonical", canonical), ("alternative", alt)] {
-        let r2 = run_group(&cd, &c.opts, &a, "json", &[]);
+    for (name, a) in [("canonical", canonical), ("alternative", alt), ("stdin", args.clone())] {
+        let r2 = if name == "stdin" { run_group_stdin(&cd, &c.opts, &a, "json", &[]) } else { run_group(&cd, &c.opts, &a, "json", &[]) };
+        if name == "stdin" && !r2.out.ok() && !r2.out.crashed() && !r2.out.timed_out && clean_rejection(&r2.out).is_some() {
+            // e.g. --isolate needs the roots as arguments
+            continue;
+        }
         match &r2.report {
             Ok(rep2) => {
                 let same_groups = rep2.groups == report.groups;
@@ -237,7 +241,7 @@ pub fn check(tier: Tier) -> i32 {
     cleanup_process_scratch();
     ctx.finish(
         "exploration",
-        "proptest-generated trees of tiny files in 1-4 roots with hard-link sets inside/across roots, file and directory symlinks, overlapping roots, 9 root spellings (relative, ./, trailing slash, /., .., ../cwd, absolute, through a directory symlink, //) x --rf-over 0..3 / --rf-under 1..4 / --unique / -H / -I / -S / -L; oracle 1: reference replica count (hard links one replica, every path under -H, one per canonical root under -I) decides reported classes, each with all its paths; oracle 2 (metamorphic): canonical and alternative spellings of the same roots give identical groups and statistics. Non-trivial = a class whose path count, inode count and root count are not all equal and whose replica count is within 1 of the threshold.",
+        "proptest-generated trees of tiny files in 1-4 roots with hard-link sets inside/across roots, file and directory symlinks, overlapping roots, 9 root spellings (relative, ./, trailing slash, /., .., ../cwd, absolute, through a directory symlink, //) x --rf-over 0..3 / --rf-under 1..4 / --unique / -H / -I / -S / -L; oracle 1: reference replica count (hard links one replica, every path under -H, one per canonical root under -I) decides reported classes, each with all its paths; oracle 2 (metamorphic): canonical and alternative spellings of the same roots, and the same roots fed through --stdin (unless that combination is rejected), give identical groups and statistics. Non-trivial = a class whose path count, inode count and root count are not all equal and whose replica count is within 1 of the threshold.",
         &["root arguments name directories", "isolate roots are compared canonically (statement: outcome independent of spelling)"],
     )
 }
